@@ -195,8 +195,41 @@ def reach_fns(cr, roots):
     return sorted(p for p in cr.reachable(roots) if p in cr.fns and not is_test_fn(cr.fns[p]))
 
 
+_ENGINE_CHECKED = set()
+
+
+def engine_selfcheck(ck):
+    """the verifier's own controls (/verif/fixtures): every ok_* function must be proved, every bad_* must not be.
+    Runs once per check invocation; a wrong verdict here makes the engine's verdicts on /repo worthless (fail closed)."""
+    if id(ck) in _ENGINE_CHECKED:
+        return
+    _ENGINE_CHECKED.add(id(ck))
+    from lib import facts
+    ck.rule("ENGINE", "the in-bounds verifier proves every positive control and none of the negative controls in /verif/fixtures")
+    fx = mir.Crate(facts.fixtures_facts())
+    n_ok = n_bad = 0
+    for p, f in sorted(fx.fns.items()):
+        name = p.split("::")[-1]
+        if not name.startswith(("ok_", "bad_")):
+            continue
+        pr = Prover(f, fx)
+        res = []
+        for b, _ in pr.sites():
+            res += [(t, ok) for t, ok, _, _ in pr.check_site(b)["goals"]]
+        proved = bool(res) and all(ok for _, ok in res)
+        want = name.startswith("ok_")
+        n_ok += want
+        n_bad += not want
+        ck.ob("ENGINE", "fixture|" + name, proved == want and bool(res),
+              "positive control is proved" if want else "negative control is NOT proved (at least one goal stays open)",
+              site="fixtures/src/lib.rs", detail=[norm_text(t) for t, ok in res if not ok][:3], trivial=True)
+    ck.floor("verifier controls (proved)", n_ok, 13)
+    ck.floor("verifier controls (must stay unproved)", n_bad, 16)
+
+
 def check_bounds(ck, cr, rule, fn_paths):
     """decide every indexing / division site of the given functions (rule id `rule`); returns (counts, number of sites)"""
+    engine_selfcheck(ck)
     obj_types = {}
     for p, f in cr.fns.items():
         if not p.startswith("allocator::"):
